@@ -605,6 +605,9 @@ func evalEnsuresConcrete(u *Universe, c *Contract, cins []concreteInput, obs map
 		if t.IsFalse() {
 			return en.Text, ""
 		}
+		if un := uninterpretedIn(t, x.defs); un != "" {
+			return "", "postcondition mentions the uninterpreted operation " + un + " and cannot be evaluated on concrete outputs: " + en.Text
+		}
 		// undecided by the simplifier: ask a solver about the ground formula
 		ob := &Obl{Name: "ground", PC: x.withGlobals(post.pc), Goal: t, Defs: "", DefNames: x.defOrder}
 		var defs strings.Builder
@@ -666,4 +669,31 @@ func runReplay(prop, file string, opt *Options) int {
 		return 1
 	}
 	return 0
+}
+
+// uninterpretedIn returns the name of an uninterpreted function or free symbol in t, if any.
+func uninterpretedIn(t *Term, defs map[string]string) string {
+	seen := map[*Term]bool{}
+	var walk func(t *Term) string
+	walk = func(t *Term) string {
+		if seen[t] {
+			return ""
+		}
+		seen[t] = true
+		if t.Op == "app" {
+			if _, ok := defs[t.Name]; !ok {
+				return t.Name
+			}
+		}
+		if t.Op == "var" && len(t.Bound) == 0 && !strings.Contains(t.Name, "!") {
+			return ""
+		}
+		for _, a := range t.Args {
+			if r := walk(a); r != "" {
+				return r
+			}
+		}
+		return ""
+	}
+	return walk(t)
 }
